@@ -178,6 +178,10 @@ def run_case(c, stats):
              lambda: bool(g)]
     k = c["nv"] + len(c["prods"])
     order = order[k % 6:] + order[:k % 6]
+    if k % 4 == 0:
+        call(g.contains, [])              # the empty word asked first of the fresh object
+    elif k % 4 == 1:
+        call(g.generate_epsilon)
     for f in order:
         call(f)
     for n in (0, 1, 2, 3, 4, 5, None):
